@@ -77,7 +77,7 @@ def run(ctx):
         parsed = cfg[2]
         got = sorted(worlds.keyset(r["diags"]))
         want = [k for k in baseline if not any(t in parsed for t in tokens_for(k[2]))]
-        a_only, m_only = worlds.compare(r["diags"], m["diags"], ("IMM", "CTOR", "TONL", "PKGO"))
+        a_only, m_only = worlds.compare(r["diags"], m["diags"], worlds.MODELLED)
         ok = (got == want) and not r["crashed"] and not a_only and not m_only
         if 0 < len(want) < len(baseline):
             nontrivial.add(tuple(sorted(parsed)))
